@@ -528,6 +528,41 @@ def directed_aoa(rng):
     return S, op, sets
 
 
+def exhaustive_lengths(rng):
+    """Thorough tier: one interface, EVERY combination of array lengths
+    0..3 (top-level array of builtins), 0..3 (nested array of builtins),
+    0..2 structs in a nested array each with its own array of length 0..2,
+    members given as dicts or as typed (possibly derived) objects."""
+    import itertools
+    S = ESchema([("urn:enc:x0", False), ("urn:enc:x1", True)])
+    S.types.append(EType("ArrB", 0, "array", item=("b", "int")))
+    S.types.append(EType("P", 1, "struct", members=[
+        EMember("x", 1, True, ("b", "string")), EMember("nums", 1, True, ("n", 0, "ArrB"))]))
+    S.types.append(EType("Q", 0, "struct", base=(1, "P"), members=[
+        EMember("more", 0, False, ("n", 0, "ArrB"), nillable=True)]))
+    S.types.append(EType("ArrP", 1, "array", item=("n", 1, "P")))
+    S.types.append(EType("H", 0, "struct", members=[
+        EMember("nums", 0, False, ("n", 0, "ArrB")), EMember("ps", 0, False, ("n", 1, "ArrP"))]))
+    op = EOp("exh", [("h", ("n", 0, "H")), ("arr", ("n", 0, "ArrB"))], 1)
+    leaf = lambda b: ("leaf",) + F.gen_leaf(rng, b)   # noqa
+    ints = lambda n: [leaf("int") for _ in range(n)]   # noqa
+
+    def member(kind, n):
+        if kind == "dict":
+            return F.VObj(None, [("x", leaf("string")), ("nums", ints(n))])
+        if kind == "P":
+            return F.VObj((1, "P"), [("nums", ints(n)), ("x", leaf("string"))])
+        return F.VObj((0, "Q"), [("x", leaf("string")), ("nums", ints(n)), ("more", ints(n))])
+    sets = []
+    for top, nested in itertools.product(range(4), range(4)):
+        for k in range(3):
+            for lens in itertools.product(range(3), repeat=k):
+                for kind in ("dict", "P", "Q"):
+                    ps = [member(kind, n) for n in lens]
+                    sets.append([F.VObj(None, [("nums", ints(nested)), ("ps", ps)]), ints(top)])
+    return S, op, sets
+
+
 # ---------------------------------------------------------------------------
 # the check
 # ---------------------------------------------------------------------------
@@ -574,7 +609,7 @@ def run_encoded(ck, proof_ok=None):
 
     rng = ck.rng
     quick = ck.tier == "quick"
-    n_schemas = 45 if quick else 400
+    n_schemas = 60 if quick else 400
     n_ops = 3
     reps = 3 if quick else 6
     cases = []      # (coq text, meta)
@@ -639,6 +674,16 @@ def run_encoded(ck, proof_ok=None):
                     impl, raw = call_impl(client, S, op, values, rng, style)
                     add(S, wsdl, op, values, impl, raw, tag)
 
+    # ---- thorough: exhaustive array lengths on one interface
+    if not quick:
+        S, op, sets = exhaustive_lengths(rng)
+        wsdl, client = load(S, [op])
+        if client is not None:
+            for values in sets:
+                impl, raw = call_impl(client, S, op, values, rng, 0)
+                add(S, wsdl, op, values, impl, raw, "exhaustive")
+            ck.extra["encoded_exhaustive_length_combinations"] = len(sets)
+
     if cases:
         m = cases[0][1]
         ck.sample({"operation": m["op"], "arguments": describe(m["values"])[:400], "envelope": m["raw"][:900]})
@@ -656,7 +701,7 @@ def run_encoded(ck, proof_ok=None):
     ck.extra["encoded_cases_inside_theorem_guard"] = len(in_guard)
     ck.extra["encoded_theorem_instance_failures"] = len(res["enc_theorem_instance"])
     ck.extra["encoded_random_cases_outside_guard"] = sum(
-        1 for i, (_, m) in enumerate(cases) if m["tag"] in ("random", "empty") and i not in in_guard)
+        1 for i, (_, m) in enumerate(cases) if m["tag"] in ("random", "empty", "exhaustive") and i not in in_guard)
 
     def payload(i):
         m = cases[i][1]
@@ -691,7 +736,8 @@ def run_encoded(ck, proof_ok=None):
             "extension chains, sequence/all, optional and nillable members, SOAP-encoded arrays of builtin and of "
             "struct members incl. derived member types, arrays inside structs inside arrays) x 3 operations of 1-3 "
             "typed parts x conforming argument trees (dicts, factory objects, lists/tuples of length 0-3, None), "
-            "plus directed interfaces: empty arrays at every level, the duplicated-member quirk; distinct = case "
+            "plus directed interfaces: empty arrays at every level, the duplicated-member quirk; thorough tier adds "
+            "every combination of array lengths 0..3 / 0..3 / 0..2 x 0..2 on one interface; distinct = case "
             "index; non-trivial = some argument is an object or a list")
     ck.rule = (ck.rule + " || " + rule) if ck.rule else rule
     return {"cases": len(cases), "spec_bad": len(spec_bad), "disagree": len(dis), "proof_ok": proof_ok}
